@@ -1,10 +1,12 @@
 package sims
 
 import (
-	"math/big"
+	"strings"
 	"bytes"
 	"crypto/x509"
 	"fmt"
+	"math/big"
+	"net/http"
 	"sync"
 	"time"
 
@@ -46,12 +48,12 @@ var OCSPBehaviours = []string{
 	"empty", "garbage", "truncated", "trailing", "oversize", "wrong-type", "critical-ext",
 	"st-malformed", "st-internal", "st-trylater", "st-sigrequired", "st-unauthorized",
 	// transport
-	"http-404", "http-500", "http-204", "err", "timeout", "body-err",
+	"http-404", "http-500", "http-204", "err", "timeout", "body-err", "redirect-loop",
 }
 
 // OCSPFaults is the sub-alphabet that never carries evidence.
 var OCSPFaults = []string{"empty", "garbage", "truncated", "oversize", "st-malformed", "st-internal", "st-trylater", "st-sigrequired", "st-unauthorized",
-	"http-404", "http-500", "http-204", "http-301", "http-403", "http-503", "err", "timeout", "body-err"}
+	"http-404", "http-500", "http-204", "http-301", "http-403", "http-503", "err", "timeout", "body-err", "redirect-loop"}
 
 // Kit builds and caches the replies and CRLs for the certificate at one
 // position of a family (with one shape).
@@ -416,6 +418,8 @@ func (k *Kit) build(beh string) netsim.Reply {
 		return netsim.Reply{Body: b, BodyErrAt: len(b) / 2}
 	case "hang":
 		return netsim.Reply{Hang: true}
+	case "redirect-loop":
+		return netsim.Reply{Status: 302, Header: http.Header{"Location": []string{"http://" + k.F.Host(k.Pos, "o", 0) + "/again"}}}
 	}
 	panic("sims: unknown OCSP behaviour " + beh)
 }
@@ -427,7 +431,10 @@ func (k *Kit) OCSPHandler(script []netsim.Reply) netsim.Handler {
 		// the serial must always be this certificate's; the issuer hashes are
 		// compared only when the request uses SHA-1 (the only hash the double
 		// recomputes), so that a library switching to SHA-256 raises no alarm
-		if info, ok := pki.ParseOCSPRequest(req.Body); !ok ||
+		if strings.HasSuffix(req.URL, "/again") {
+			// the HTTP client following this double's own redirect: not a request
+			// the library composed
+		} else if info, ok := pki.ParseOCSPRequest(req.Body); !ok ||
 			info.Serial.Cmp(k.Cert.SerialNumber) != 0 ||
 			(info.HashOID.Equal(pki.OIDSHA1) && (!bytes.Equal(info.NameHash, pki.NameHash(k.Issuer)) ||
 				!bytes.Equal(info.KeyHash, pki.SPKIKeyHash(k.Issuer)))) {
